@@ -2,6 +2,7 @@ package main
 
 import (
 	"fmt"
+	"go/token"
 	"go/types"
 	"sort"
 	"strings"
@@ -272,6 +273,98 @@ func (e *Eng) boundVal(t types.Type, hint string) (Val, []string) {
 func calleeOf(cc *ssa.CallCommon) ssa.Value { return cc.Value }
 
 func (e *Eng) doCall(fr *Frame, st *State, instr ssa.Instruction, cc *ssa.CallCommon, mode string) {
+	e.doCallInner(fr, st, instr, cc, mode)
+	if fr.pure || e.fc == nil || len(e.fc.Sites) == 0 || fr.fn != e.fn {
+		return
+	}
+	name := calleeName(cc)
+	for _, ss := range e.fc.Sites {
+		if ss.Callee != name && !strings.HasSuffix(name, "."+ss.Callee) && !strings.HasSuffix(name, ")."+ss.Callee) {
+			continue
+		}
+		if e.siteOrdinal(instr, cc, ss.Callee) != ss.N {
+			continue
+		}
+		vars := map[string]Val{}
+		var res Val
+		if v, ok := instr.(ssa.Value); ok {
+			res = fr.vals[v]
+		}
+		nres := cc.Signature().Results().Len()
+		for i, vd := range ss.Vars {
+			if i >= nres {
+				vars[vd.Name] = e.localAt(fr, st, instr, vd.Name)
+				continue
+			}
+			if tv, ok := res.(*TupleV); ok && nres > 1 {
+				vars[vd.Name] = tv.Elems[i]
+			} else {
+				vars[vd.Name] = res
+			}
+		}
+		t := e.evalClause(ss.Clause, st, e.entry, nil, vars)
+		if ss.Kind == "assume" {
+			e.assume(st, t)
+			e.note(fmt.Sprintf("assumption at call %s#%d in %s: %s (%s)", ss.Callee, ss.N, fnDisplayName(e.fn), ss.Clause.Expr, ss.Clause.Reason))
+		} else {
+			e.oblige(st, "assert", ss.Clause.Label, propsOf(ss.Clause, e), t, instr, "assertion after call "+ss.Callee+": "+ss.Clause.Expr)
+			e.assume(st, t)
+		}
+	}
+}
+
+func calleeName(cc *ssa.CallCommon) string {
+	if cc.IsInvoke() {
+		return cc.Method.FullName()
+	}
+	switch v := cc.Value.(type) {
+	case *ssa.Function:
+		return v.String()
+	case *ssa.Builtin:
+		return v.Name()
+	case *ssa.MakeClosure:
+		return v.Fn.(*ssa.Function).String()
+	}
+	return ""
+}
+
+// siteOrdinal: position (1-based, in source order) of this call among the calls of the same callee.
+func (e *Eng) siteOrdinal(instr ssa.Instruction, cc *ssa.CallCommon, callee string) int {
+	type cs struct {
+		in  ssa.Instruction
+		pos token.Pos
+	}
+	var all []cs
+	for _, b := range e.fn.Blocks {
+		for _, in := range b.Instrs {
+			var c *ssa.CallCommon
+			switch x := in.(type) {
+			case *ssa.Call:
+				c = &x.Call
+			case *ssa.Go:
+				c = &x.Call
+			case *ssa.Defer:
+				c = &x.Call
+			}
+			if c == nil {
+				continue
+			}
+			n := calleeName(c)
+			if n == callee || strings.HasSuffix(n, "."+callee) || strings.HasSuffix(n, ")."+callee) {
+				all = append(all, cs{in, in.Pos()})
+			}
+		}
+	}
+	sort.SliceStable(all, func(i, j int) bool { return all[i].pos < all[j].pos })
+	for i, c := range all {
+		if c.in == instr {
+			return i + 1
+		}
+	}
+	return 0
+}
+
+func (e *Eng) doCallInner(fr *Frame, st *State, instr ssa.Instruction, cc *ssa.CallCommon, mode string) {
 	var resVal ssa.Value
 	if v, ok := instr.(ssa.Value); ok {
 		resVal = v
@@ -311,6 +404,13 @@ func (e *Eng) doCall(fr *Frame, st *State, instr ssa.Instruction, cc *ssa.CallCo
 		if fc == nil {
 			// methods declared by an embedded interface
 			fc = e.lookupIfaceContract(cc)
+		}
+		if fc != nil && fc.Stable && sig.Results().Len() == 1 {
+			e.trustedUse["contract:"+key] = true
+			v := e.pureIfaceCall(fr, st, key, recv, sig, false)
+			e.assume(st, e.wf(sig.Results().At(0).Type(), v))
+			setRes(v)
+			return
 		}
 		if fc != nil {
 			setRes(e.applyContract(fr, st, instr, fc, key, all, sig, mode))
@@ -423,6 +523,11 @@ func (e *Eng) doCall(fr *Frame, st *State, instr ssa.Instruction, cc *ssa.CallCo
 			case *types.Interface:
 				if iv, ok := args[i].(*IfaceV); ok && iv.Boxed != nil {
 					if _, isPtr := iv.Boxed.(*PtrV); !isPtr {
+						continue
+					}
+					// a pointer whose pointee type is not declared in /repo has no methods that could
+					// reach repository state: only its direct target is written
+					if !e.repoType(iv.BoxedT) {
 						continue
 					}
 				}
@@ -1661,4 +1766,132 @@ func replaceSym(t, sym, with string) string {
 		i = end
 	}
 	return b.String()
+}
+
+
+// stableGlobal: package-level variables mentioned by a package invariant are never written outside
+// their package initialiser (obligation pkginv.stable), so no call can change them.
+func (w *World) stableGlobal(heapName string) bool {
+	if !strings.HasPrefix(heapName, "Glob|") {
+		return false
+	}
+	w.stableOnce.Do(func() {
+		w.stable = map[string]bool{}
+		for path, cf := range w.FileOfPkg {
+			for _, c := range cf.PkgInvs {
+				fn := w.specFn(path + "::" + c.SpecFn)
+				if fn == nil {
+					continue
+				}
+				seen := map[*ssa.Function]bool{}
+				var scan func(f *ssa.Function, d int)
+				scan = func(f *ssa.Function, d int) {
+					if seen[f] || d > 6 {
+						return
+					}
+					seen[f] = true
+					for _, b := range f.Blocks {
+						for _, in := range b.Instrs {
+							for _, op := range in.Operands(nil) {
+								if g, ok := (*op).(*ssa.Global); ok {
+									w.stable["Glob|"+g.String()+"|"] = true
+								}
+								if f2, ok := (*op).(*ssa.Function); ok && isSpecGenFn(w, f2) {
+									scan(f2, d+1)
+								}
+							}
+						}
+					}
+					for _, af := range f.AnonFuncs {
+						scan(af, d+1)
+					}
+				}
+				scan(fn, 0)
+			}
+		}
+	})
+	rest := heapName[5:]
+	i := strings.Index(rest, "|")
+	if i < 0 {
+		return false
+	}
+	return w.stable["Glob|"+rest[:i]+"|"]
+}
+
+
+// repoType: is t (or its pointee) a named type declared in one of the /repo packages?
+func (e *Eng) repoType(t types.Type) bool {
+	if p, ok := types.Unalias(t).(*types.Pointer); ok {
+		t = p.Elem()
+	}
+	n, ok := types.Unalias(t).(*types.Named)
+	if !ok || n.Obj().Pkg() == nil {
+		return false
+	}
+	return e.w.SsaPkgs[n.Obj().Pkg().Path()] != nil
+}
+
+
+// localAt resolves a local variable by name at a call site: the latest debug reference to a variable of
+// that name in a block dominating the call (or earlier in the same block).
+// cellVar: an address-taken local variable (captured by a closure or escaping) lives in an Alloc cell named
+// after it; its current value is read from memory.
+func (e *Eng) cellVar(fr *Frame, st *State, name string) (Val, bool) {
+	for _, b := range e.fn.Blocks {
+		for _, in := range b.Instrs {
+			if a, ok := in.(*ssa.Alloc); ok && a.Comment == name {
+				if p, ok := fr.vals[a].(*PtrV); ok {
+					return e.loadPtr(fr, st, p, p.Elem), true
+				}
+			}
+		}
+	}
+	return nil, false
+}
+
+func (e *Eng) localAt(fr *Frame, st *State, at ssa.Instruction, name string) Val {
+	if v, ok := e.cellVar(fr, st, name); ok {
+		return v
+	}
+	var best ssa.Value
+	var bestBlock *ssa.BasicBlock
+	ab := at.Block()
+	for _, b := range e.fn.Blocks {
+		if !b.Dominates(ab) {
+			continue
+		}
+		for _, in := range b.Instrs {
+			if in == at {
+				break
+			}
+			dr, ok := in.(*ssa.DebugRef)
+			if !ok || dr.Object() == nil || dr.Object().Name() != name {
+				continue
+			}
+			if _, isVar := dr.Object().(*types.Var); !isVar {
+				continue
+			}
+			if dr.IsAddr {
+				// address-taken variable: its current value is read from memory
+				if p, ok := fr.vals[dr.X].(*PtrV); ok {
+					return e.loadPtr(fr, st, p, p.Elem)
+				}
+				continue
+			}
+			if bestBlock == nil || bestBlock.Dominates(b) {
+				best, bestBlock = dr.X, b
+			}
+		}
+	}
+	if best != nil {
+		if v, ok := fr.vals[best]; ok {
+			return v
+		}
+	}
+	for i, p := range e.fn.Params {
+		if p.Name() == name {
+			return e.params[i]
+		}
+	}
+	panic(unsupportedErr{fmt.Sprintf("callsite clause in %s: cannot resolve local %q", e.fn, name)})
 }
